@@ -9,7 +9,7 @@ import DriverPandas
 open Lean V V.Gen
 
 namespace PyDrv
-open PdDrv (arr str! bool! field)
+open PdDrv (arr str! bool! field decFloat encFloat decOutcome encOutcome errStr encR)
 
 def decElem (j : Json) : Py.Elem :=
   let b := fun k => bool! (field j k)
@@ -17,7 +17,26 @@ def decElem (j : Json) : Py.Elem :=
     isNumber := b "number", nonNeg := b "nonneg", isStr := b "str", isDatetime := b "datetime", isDate := b "date",
     isTime := b "time", isTimedelta := b "timedelta", isPurePath := b "purepath", pathAbs := b "abs", isPath := b "path",
     pathExists := b "exists", pathImage := b "image", isParseResult := b "parseresult", isUUID := b "uuid",
-    isFQDA := b "fqda", isGeom := b "geom", isIP := b "ip" }
+    isFQDA := b "fqda", isGeom := b "geom", isIP := b "ip",
+    lowerTF := decOutcome (fun v => match v with | .null => none | w => some (bool! w)) (field j "lo"),
+    flo := decOutcome decFloat (field j "f"), firstZero := decOutcome bool! (field j "z"),
+    cplx := decOutcome (fun v => match arr v with | [a, c] => (decFloat a, decFloat c) | _ => (.nan, .nan)) (field j "c"),
+    strp := decOutcome bool! (field j "strp"), url := decOutcome bool! (field j "url"),
+    uuid := decOutcome (fun _ => ()) (field j "uuidp"), ip := decOutcome (fun _ => ()) (field j "ipp"),
+    email := decOutcome bool! (field j "email"), wkt := decOutcome bool! (field j "wkt"),
+    winAbs := decOutcome bool! (field j "win"), posixAbs := decOutcome bool! (field j "px"),
+    fval := (match field j "fv" with | .null => none | v => some (decFloat v)),
+    cval := (match arr (field j "cv") with | [a, c] => some (decFloat a, decFloat c) | _ => none),
+    midnight := decOutcome bool! (field j "mid") }
+
+/-- what is compared of a produced element: the `isinstance` facts and the numeric value -/
+def encElem (x : Py.Elem) : Json :=
+  let bits := [("none", x.isNone), ("bool", x.isBool), ("int", x.isInt), ("float", x.isFloat), ("complex", x.isComplex),
+    ("str", x.isStr), ("datetime", x.isDatetime), ("date", x.isDate), ("purepath", x.isPurePath), ("abs", x.pathAbs),
+    ("parseresult", x.isParseResult), ("uuid", x.isUUID), ("fqda", x.isFQDA), ("geom", x.isGeom), ("ip", x.isIP)]
+  Json.mkObj [("b", Json.arr ((bits.filter (·.2)).map (fun p => Json.str p.1)).toArray),
+    ("fv", match x.fval with | some v => encFloat v | none => Json.null),
+    ("cv", match x.cval with | some (a, c) => Json.arr #[encFloat a, encFloat c] | none => Json.null)]
 
 /-- request: {"op":"pylist","elems":[…],"typesets":[[names…],…]} -/
 def handle (req : Json) : Json :=
@@ -29,7 +48,24 @@ def handle (req : Json) : Json :=
     | some nodes =>
       match mkTypeset declared isGeneric nodes with
       | .error _ => Json.mkObj [("err", "build")]
-      | .ok b => Json.mkObj [("detect", Json.arr ((Py.listDetect b s).map (fun t => Json.str t.name)).toArray)])
-  Json.mkObj [("contains", Json.mkObj cont), ("trav", Json.arr trav.toArray)]
+      | .ok b =>
+        let inf : Json := match traverse (Py.graphOfL b) 64 b.root s () [] with
+          | .ok (c, p, _) => Json.mkObj [("path", Json.arr (p.map (fun t => Json.str t.name)).toArray), ("seq", Json.arr (c.map encElem).toArray)]
+          | .error e => Json.mkObj [("raises", Json.str (errStr e))]
+        Json.mkObj [("detect", Json.arr ((Py.listDetect b s).map (fun t => Json.str t.name)).toArray), ("infer", inf)])
+  -- every declared inference relation whose source contains the sequence: test, and transformer if accepted
+  let rels := Ty.all.flatMap (fun t => (declared t).filter (·.inferential) |>.map (fun r => (r.src, t)))
+  let relJ := rels.filterMap (fun (sr, d) =>
+    if Py.containsL sr s then
+      match Py.guardL sr d, Py.xformL sr d with
+      | some g, some x =>
+        let gv := g s
+        let xv : Json := match gv with
+          | .ok true => encR (fun c => Json.arr (c.map encElem).toArray) (x s)
+          | _ => Json.null
+        some (Json.mkObj [("src", sr.name), ("dst", d.name), ("guard", encR Json.bool gv), ("xform", xv)])
+      | _, _ => some (Json.mkObj [("src", sr.name), ("dst", d.name), ("guard", Json.str "unmodelled")])
+    else none)
+  Json.mkObj [("contains", Json.mkObj cont), ("trav", Json.arr trav.toArray), ("rels", Json.arr relJ.toArray)]
 
 end PyDrv
